@@ -21,7 +21,8 @@ EXPLANATION = (
     "declination reaches the coordinate string other than as a factor of the truncated integer degrees (which "
     "annihilates it for -1 < dec < 0); (R5) edit_header validates the key, encodes before opening, writes only under the "
     "equal-length guard into a non-truncating handle positioned at byte 0, and raises otherwise. Not decided: numeric "
-    "precision of the sexagesimal packing and byte-exact re-encoding of arbitrary values."
+    "precision of the sexagesimal packing and byte-exact re-encoding of arbitrary values. "
+    "Since F37/F48: every length prefix of encode_key counts the bytes that follow it (R1), and the seconds fields of parse_radec are written in fixed notation (R4)."
 )
 SIG = "sigpyproc.io.sigproc"
 HEADER = "sigpyproc.header"
